@@ -26,12 +26,14 @@ def expectedTrace (m : OpenMode) (pre : Option Bytes) (ops : List FileAppender.O
 /-- the statement for histories with several handles and failing encoders: the file is a plain
 concatenation, in call order, of the whole records whose append succeeded and of the foreign
 appends; a failed append contributes nothing; a newly built appender keeps everything in append
-mode and empties the file in truncate mode -/
+mode and empties the file in truncate mode; after an external truncation the file holds what was
+acknowledged (or appended by a foreign writer) after it -/
 def fileTraceM (m : OpenMode) (cur : Bytes) : List MOp → List Bytes
   | [] => []
   | .append _ r none :: ops => (cur ++ encBytes r) :: fileTraceM m (cur ++ encBytes r) ops
   | .append _ _ (some _) :: ops => cur :: fileTraceM m cur ops
   | .foreign x :: ops => (cur ++ x) :: fileTraceM m (cur ++ x) ops
+  | .truncate :: ops => [] :: fileTraceM m [] ops
   | .build :: ops =>
     let c := match m with | .append => cur | .truncate => []
     c :: fileTraceM m c ops
@@ -64,6 +66,26 @@ def isMergeOfWhole (initial : Bytes) (threads : List (List Bytes)) (file : Bytes
   initial.isPrefixOf file &&
     mergeGo ((ths.map List.length).sum) ths (file.drop initial.length)
 
+
+/-- a snapshot taken WHILE writers run: whole records of the threads, each thread's in its own
+order (a prefix of its program), followed by nothing or by a proper prefix of ONE next record -/
+def mergePrefixGo : Nat → List (List Bytes) → Bytes → Bool
+  | 0, _, file => file.isEmpty
+  | fuel + 1, ths, file =>
+    file.isEmpty ||
+    (List.range ths.length).any fun i =>
+      match ths[i]? with
+      | some (r :: rest) =>
+        if r.length ≤ file.length then r.isPrefixOf file && mergePrefixGo fuel (ths.set i rest) (file.drop r.length)
+        else file.isPrefixOf r
+      | _ => false
+
+/-- `snapshot = initial ++ merge-prefix of whole records ++ prefix of one record` (`threads`: the
+whole programs; empty records dropped as in `isMergeOfWhole`) -/
+def isMergePrefix (initial : Bytes) (threads : List (List Bytes)) (snap : Bytes) : Bool :=
+  let ths := threads.map (fun t => t.filter (fun r => !r.isEmpty))
+  initial.isPrefixOf snap &&
+    mergePrefixGo ((ths.map List.length).sum) ths (snap.drop initial.length)
 
 /-! ### rolling appender: reading a directory back (C05 C06 C17)
 
